@@ -11,8 +11,10 @@ import (
 	"math/rand"
 	"os"
 	"os/exec"
+	"runtime"
 	"sort"
 	"strings"
+	"sync/atomic"
 	"time"
 )
 
@@ -110,6 +112,7 @@ func NewCtx(prop string, seed int64, tier, model, corpus string) *Ctx {
 // case was skipped); the reason is c.Why when the Eval left one.  The counts go into the evidence
 // (coverage.dropped), and ./check enforces per-class floors on what WAS evaluated (checks.json class_floors).
 func (c *Ctx) Drop(class, why string) {
+	atomic.AddInt64(&progress, 1)
 	if class == "corpus" && c.Why == "" {
 		return // corpus files are shared by the sub-runners of a property: a line of another runner is not a drop
 	}
@@ -156,6 +159,7 @@ func (c *Ctx) RandBytes(n int) []byte {
 
 // Add queues a case; batches are flushed to the model automatically.
 func (c *Ctx) Add(cs Case) {
+	atomic.AddInt64(&progress, 1)
 	c.batch = append(c.batch, cs)
 	if len(c.batch) >= 20000 {
 		c.Flush()
@@ -315,6 +319,71 @@ func (c *Ctx) Violate(v Violation) {
 	if len(c.Res.Violations) < 60 {
 		c.Res.Violations = append(c.Res.Violations, v)
 	}
+}
+
+// progress counts evaluated or dropped cases; the stall watchdog looks at it.
+var progress int64
+
+// Tick tells the stall watchdog that the run is alive (for phases that evaluate long traces before adding their cases).
+func Tick() { atomic.AddInt64(&progress, 1) }
+
+// Watch starts the stall watchdog: a library call that never returns (a mutex left locked by an earlier panic, a
+// deadlock, an endless loop outside the per-call watchdogs of the runners) would otherwise hold the whole run until the
+// check's own time limit and lose everything found so far.  When no case has been evaluated for `limit`, the oracles of
+// the cases gathered since the last flush are evaluated (without the model), a violation describing the stall - with the
+// stacks of the goroutines that stand inside the library - is recorded, the result file is written and the process ends.
+// blocking: true for the properties whose statement forbids blocking (the stall is then a property violation and the
+// lines evaluated last are its replay); otherwise the stall is reported as a check that could not be completed.
+func (c *Ctx) Watch(out string, limit time.Duration, blocking bool) {
+	go func() {
+		last, since := int64(-1), time.Now()
+		for {
+			time.Sleep(2 * time.Second)
+			if p := atomic.LoadInt64(&progress); p != last {
+				last, since = p, time.Now()
+				continue
+			}
+			if time.Since(since) < limit {
+				continue
+			}
+			buf := make([]byte, 1<<22)
+			buf = buf[:runtime.Stack(buf, true)]
+			var lib []string
+			for _, g := range strings.Split(string(buf), "\n\n") {
+				if strings.Contains(g, "github.com/irai/packet") && !strings.Contains(g, "core.(*Ctx).Watch") {
+					if len(g) > 1800 {
+						g = g[:1800] + " …"
+					}
+					lib = append(lib, g)
+				}
+			}
+			if len(lib) > 6 {
+				lib = lib[:6]
+			}
+			var tail []string
+			for i := len(c.batch) - 1; i >= 0 && len(tail) < 3; i-- {
+				tail = append([]string{c.batch[i].Line}, tail...)
+			}
+			for _, cs := range c.batch { // keep what the oracles of the unflushed cases already know
+				if cs.Oracle != nil {
+					if orc, kid := cs.Oracle(); orc != "" {
+						c.Violate(Violation{Kind: "property", What: orc, Replay: []string{cs.Line}, Known: kid})
+					}
+				}
+				c.Res.Evaluations++
+				c.Res.Classes[cs.Class]++
+			}
+			kind := "stall"
+			if blocking {
+				kind = "property"
+			}
+			c.Violate(Violation{Kind: kind, What: fmt.Sprintf("a library call did not return: no case was evaluated for %s (the run was stopped; lines evaluated last are given as context, the blocked call is the one AFTER them in the generator's order).  Goroutines standing inside the library:\n%s", limit, strings.Join(lib, "\n\n")), Replay: tail})
+			c.batch = c.batch[:0]
+			c.Res.Extra["stalled"] = true
+			c.Finish(out)
+			os.Exit(0)
+		}
+	}()
 }
 
 // Finish writes the result file.
